@@ -37,7 +37,7 @@ def classify(src):
     seen_approx = False
     for op in ops:
         name = op["op"]
-        if seen_approx and name not in ("RESHAPE", "CONCATENATION", "SPLIT", "STRIDED_SLICE", "SLICE", "PAD", "SQUEEZE", "DEPTH_TO_SPACE", "TRANSPOSE", "MAX_POOL_2D", "RELU", "CUSTOM", "NEG"):
+        if seen_approx and name not in ("RESHAPE", "CONCATENATION", "SPLIT", "STRIDED_SLICE", "SLICE", "PAD", "SQUEEZE", "DEPTH_TO_SPACE", "TRANSPOSE", "MAX_POOL_2D", "RELU", "CUSTOM", "NEG", "PACK", "UNPACK", "SPLIT_V", "SHAPE", "EXPAND_DIMS"):
             return None
         if name in K.APPROX:
             seen_approx = True
